@@ -11,14 +11,15 @@ THEOREMS = ["C16_include_flattens", "C16_include_moved", "C16_fuel_monotone", "C
             "C16_comment_skipped_in_block", "C16_case_insensitive", "C16_opcode_lowered", "C16_scan_compositional",
             "C16_invisible_block", "C16_blank_lines", "C16_blank_lines_at_top", "C16_line_comment", "C16_line_comment_at_top",
             "C16_block_comment", "C16_block_comment_at_top", "C16_indentation_at_top", "C16_indentation",
-            "C16_line_replacement", "C16_trailing_blanks", "C16_eol_comment", "C16_line_tail_at_top"]
+            "C16_line_replacement", "C16_trailing_blanks", "C16_eol_comment", "C16_line_tail_at_top",
+            "C16_case_scan", "C16_case_number", "C16_case_parse_partial"]
 
 
 def instantiate(gen_q):
     """Per-run: the two side conditions of the scanner theorems hold for the live lexicon."""
     lx = "(mk_lexicon Run.GenLexicon.mnemonics Run.GenLexicon.mnemonics_without_operand Run.GenLexicon.keywords)"
     text = (
-        "From A816 Require Import Model.Scanner Proofs.ScannerSpec Proofs.ScannerPos Proofs.ScannerTrailing1.\n"
+        "From A816 Require Import Model.Scanner Proofs.ScannerSpec Proofs.ScannerPos Proofs.ScannerTrailing1 Proofs.ScannerCase1.\n"
         "Require Import Run.GenLexicon.\n"
         f"Definition live_lexicon16 := {lx}.\n"
         "Lemma live_lexicon16_ok : lexicon_ok live_lexicon16 = true.\nProof. vm_compute. reflexivity. Qed.\n"
@@ -28,7 +29,9 @@ def instantiate(gen_q):
         "Definition C16_eol_comment_live_ok := fun file a x w c b ta ea la t1 e1 l1 => "
         "C16_eol_comment live_lexicon16 file a x w c b ta ea la t1 e1 l1 live_lexicon16_ok live_lexicon16_tok.\n"
     )
-    return text, ["C16_trailing_blanks_live_ok", "C16_eol_comment_live_ok"]
+    text += ("Lemma live_lexicon16_kw : kw_ok live_lexicon16 = true.\nProof. vm_compute. reflexivity. Qed.\n"
+             "Definition C16_case_scan_live := fun file s s' toks lines => C16_case_scan live_lexicon16 file s s' toks lines live_lexicon16_kw.\n")
+    return text, ["C16_trailing_blanks_live_ok", "C16_eol_comment_live_ok", "C16_case_scan_live"]
 # model-tie modules whose correspondence is part of this property's check (parts of the model its theorems rest on)
 TIES = ['SCAN']
 RULE = ("valid programs (generated + the repository's sample sources) x 6 random compositions of the listed presentation "
@@ -48,14 +51,18 @@ PROVED_NOTE = ("proved: an included file becomes a block that code generation fl
                "any line changes only the columns on that line (exact equation, errors included); trailing blanks and an end-of-line "
                "';' comment after ANY line are invisible (two-text simulation through every lexer; side condition: a blank "
                "before the ';' or no bare mnemonic right before it; `lexicon_tok` discharged per run on the live lexicon). "
-               "Correspondence-only (partial): spaces inside operands (reducible by C16_line_replacement to a decidable "
-               "per-line fact) and the letter case of mnemonics at the text level - metamorphic runs and the scanner tie (SCAN).")
+               "LETTER CASE at text level: two texts equal up to ASCII letter case whose differences avoid directive keywords and the "
+               "base marker of numerals scan to the same token types at the same positions with values equal up to case (lock-step "
+               "simulation through every lexer); a re-cased hexadecimal numeral has the same value; the parser's instruction statement "
+               "maps such token lists to the same node up to mnemonic case (partial: not lifted through the statement loops). "
+               "Correspondence-only (partial): spaces inside operands of arbitrary lines (proved for expressions and data/instruction "
+               "lines in C06Lex/C07Text; reducible by C16_line_replacement otherwise) - metamorphic runs and the scanner tie (SCAN).")
 MANIFEST = {
     "text": ("Coq theorems on include flattening, comment skipping and case folding in the parser / code-generation models; "
              "scanner layout-insensitivity is checked metamorphically: re-laid-out programs must give identical blocks, offsets "
              "and symbol values on the implementation, and the composed model must agree with the implementation on the "
              "re-laid-out text."),
-    "note": ("Partial: spaces inside operands and mnemonic letter case at the text level are validated by metamorphic correspondence, not proved (comment lines, blank lines, indentation, trailing blanks and end-of-line comments are proved). "
+    "note": ("Partial: spaces inside operands of arbitrary lines, and the lifting of the case theorem from the instruction statement to whole programs, are validated by metamorphic correspondence, not proved (comment lines, blank lines, indentation, trailing blanks and end-of-line comments are proved). "
              "Trusted: Coq kernel/vm_compute, harness. No axioms."),
     "technique": "Coq proof (include flattening, comment skip, case folding) + metamorphic layout twins + model correspondence",
 }
